@@ -430,8 +430,8 @@ func cmdCheck(args []string) int {
 				break
 			}
 			violations++
-			os.MkdirAll(filepath.Join(vd, "replays", id), 0o755)
-			path := filepath.Join(vd, "replays", id, mangle(bf.b.Function+"_bounded_"+fmt.Sprint(i))+".json")
+			os.MkdirAll(filepath.Join(replaysBase(vd), id), 0o755)
+			path := filepath.Join(replaysBase(vd), id, mangle(bf.b.Function+"_bounded_"+fmt.Sprint(i))+".json")
 			rep := map[string]interface{}{"property": id, "obligation": bf.b.Function + "#bounded:" + bf.input, "kind": "bounded", "function": bf.b.Function,
 				"failing_input": bf.input, "observed": bf.line, "replay_cmd": fmt.Sprintf("go test -overlay <ov.json mapping %s/zz_tvc_harness_test.go to /verif/harness/%s> -tags default_build -vet=off -run %s ./%s/", bf.b.Pkg, bf.b.Harness, bf.b.Test, bf.b.Pkg), "replay_confirmed": true}
 			bts, _ := json.MarshalIndent(rep, "", " ")
@@ -440,7 +440,7 @@ func cmdCheck(args []string) int {
 			exit = 1
 		}
 	}
-	replayDir := filepath.Join(vd, "replays", id)
+	replayDir := filepath.Join(replaysBase(vd), id)
 	for _, o := range knownSeen {
 		k := knownOpen[o.Name]
 		fmt.Printf("KNOWN-FINDING: property=%s %s (%s)\n", id, k.What, o.Name)
@@ -708,4 +708,12 @@ func hasGuardSite(eng *Engine, fn *ssa.Function, guards []*Guard) bool {
 		}
 	}
 	return false
+}
+
+// replaysBase: where replay files go (default /verif/replays; TVC_REPLAY_DIR redirects them, used by the seed runner)
+func replaysBase(vd string) string {
+	if d := os.Getenv("TVC_REPLAY_DIR"); d != "" {
+		return d
+	}
+	return filepath.Join(vd, "replays")
 }
